@@ -76,6 +76,11 @@ def r2(ctx):
         len(reg[0].conds) == 1
     ctx.require(ok, p, 'byte-to-id', 'text bytes become ids by value (every byte of the piece, nothing dropped, no arithmetic)',
                 'regular text is turned into ids by %s' % [repr(l)[:160] for l in reg])
+    spc = [l for l in leaves if any(pp and c[0] == 'is' and c[1] == ITEM and c[2] == ('Special',) for c, pp in l.conds)]
+    ok = len(spc) == 1 and spc[0].kind == 'one' and has(spc[0].elem, Call('Vocab::token_to_id', ('field', ('arg', 1, ANY), 'special_vocab'),
+                                                                          Pred(lambda u: core(u) == ('field', ('variant', ITEM, 'Special'), 0))))
+    ctx.require(ok, p, 'special-to-id', 'a parsed special token becomes the id the SPECIAL vocabulary gives it (one id)',
+                'a parsed special token is turned into %s: the public token_to_id resolves one-byte strings to byte ids first' % [repr(l)[:140] for l in spc])
     d = body_for(ctx, TOK + 'de_tokenize', BYTE)
     R['bytes'] = _one(d, r'^std::vec::Vec<u8>$', 'byte buffer')
     bs = seq_of_var(ctx.facts, d, R['bytes'])
@@ -261,3 +266,11 @@ def r4(ctx):
     pt = [c for c in t.calls(r'process_token_input$')]
     ctx.require(len(sp) == 1 and len(pt) == 1 and nosite(core(sym(t, pt[0].args[1]))) == nosite(core(sym(t, sp[0].dest))), t, 'pipeline',
                 'tokenize = process_token_input(split_input(s, ignore_special_tokens))', None)
+
+
+@rule('C01', 'R-C01-5', 'prerequisite (vocabulary ids are injective)',
+      'Vocab::build assigns start_id + position over the DE-DUPLICATED tokens and derives the reverse map from it (R-C04-3 '
+      're-evaluated): two characters sharing an id decode to the same character')
+def r5(ctx):
+    from rules import c04
+    c04.r3(ctx)
